@@ -145,10 +145,14 @@ func ParseControl(reader *bufio.Reader, path string) (*Control, error) {
 		Source:   SourceParagraph{},
 	}
 
-	if err := Unmarshal(&ret.Source, reader); err != nil {
+	decoder, err := NewDecoder(reader, nil)
+	if err != nil {
 		return nil, err
 	}
-	if err := Unmarshal(&ret.Binaries, reader); err != nil {
+	if err := decoder.Decode(&ret.Source); err != nil {
+		return nil, err
+	}
+	if err := decoder.Decode(&ret.Binaries); err != nil {
 		return nil, err
 	}
 
